@@ -67,12 +67,12 @@ EARLY_MSG = "early <b>failure</b>\nsecond line"
 
 
 def tokens(c):
-    """the line run() is given: the verbosity switch right behind the command's name path (command names must precede every
-    option, and it must not stand behind a '--'); under the rewriting resolver a leading 'wrap' token, which that resolver strips"""
-    toks, path = LINES[c.get("line", 0)]
-    toks = list(toks)
+    """the line run() is given: the verbosity switch as the last option token (before a '--'; -v takes an optional value and
+    would swallow an argument standing behind it); under the rewriting resolver a leading 'wrap' token, which that resolver
+    strips"""
+    toks = list(LINES[c.get("line", 0)][0])
     if c["verb"]:
-        toks.insert(len(path) if path else 1, VERB[c["verb"]])
+        toks.insert(toks.index("--") if "--" in toks else len(toks), VERB[c["verb"]])
     if c.get("rs") == ["wrap"]:
         toks = ["wrap"] + toks
     return toks
